@@ -48,6 +48,19 @@ def safe_getattr(value: object, attr: str, default: object) -> Any:
         return default
 
 
+def safe_repr(value: object) -> str:
+    """repr() that does not raise.
+
+    repr() of an arbitrary object can fail; for example, an int with more digits
+    than sys.get_int_max_str_digits() raises ValueError.
+
+    """
+    try:
+        return repr(value)
+    except Exception:
+        return f"<{type(value).__name__} object>"
+
+
 def safe_equals(left: object, right: object) -> bool:
     """Safely check whether two objects are equal."""
     try:
